@@ -215,7 +215,7 @@ class PathCtx:
     def reals(self, name, shape, lo=None, hi=None):
         from .arr import sa
 
-        shape = (shape,) if isinstance(shape, int) else tuple(shape)
+        shape = (int(shape),) if isinstance(shape, (int, np.integer)) else tuple(int(s) for s in shape)
         a = np.empty(shape, dtype=object)
         for idx in np.ndindex(*shape):
             a[idx] = self.real(f"{name}_{'_'.join(map(str, idx))}", lo, hi)
